@@ -17,6 +17,7 @@ import (
 
 	"verif/harness/modelstore"
 
+	"github.com/zitadel/oidc/v3/pkg/oidc"
 	"github.com/zitadel/oidc/v3/pkg/op"
 )
 
@@ -131,6 +132,32 @@ type Cfg struct {
 	Dev     bool   `json:"dev"`
 	Alg     string `json:"alg"`
 	SessSt  string `json:"sessionState"`
+	Policy  Policy `json:"policy"`
+}
+
+// Policy is the token-exchange policy of the store (spec: cfg.policy).
+type Policy struct {
+	Deny    bool   `json:"deny"`
+	DefType string `json:"defType"`
+	Imp     string `json:"imp"`
+	Drop    string `json:"drop"`
+}
+
+var tokenTypeURN = map[string]string{
+	"access":  "urn:ietf:params:oauth:token-type:access_token",
+	"refresh": "urn:ietf:params:oauth:token-type:refresh_token",
+	"id":      "urn:ietf:params:oauth:token-type:id_token",
+	"jwt":     "urn:ietf:params:oauth:token-type:jwt",
+	"unknown": "urn:example:token-type:unknown",
+}
+
+func typeFromURN(u string) string {
+	for k, v := range tokenTypeURN {
+		if v == u {
+			return k
+		}
+	}
+	return u
 }
 
 func DefaultCfg(router string) Cfg {
@@ -161,6 +188,10 @@ func BuildProvider(store *modelstore.Store, cfg Cfg, extra ...op.Option) (http.H
 		},
 	}
 	store.SessionState = cfg.SessSt
+	store.Policy = modelstore.TEPolicy{Deny: cfg.Policy.Deny, Impersonate: cfg.Policy.Imp, DropScope: cfg.Policy.Drop}
+	if cfg.Policy.DefType != "" {
+		store.Policy.DefaultType = oidc.TokenType(tokenTypeURN[cfg.Policy.DefType])
+	}
 	st := modelstore.WithCaps(store, cfg.CC, cfg.TE, cfg.Dev)
 	opts := append([]op.Option{op.WithLogger(quiet)}, extra...)
 	p, err := op.NewProvider(conf, st, op.StaticIssuer(Issuer), opts...)
